@@ -1,5 +1,75 @@
-import Smooth.Model.Surface
+/-
+C10 (frame part) — evaluation and the numeric derivative passes only ever WRITE MEMOS.
+
+In the heap model (Model/Heap) the only mutable state is the store of `_value` fields; the
+expression tree, the point and every other object are arguments, not state, so no operation of the
+model can change what an existing object denotes.  What remains to be shown is the frame of the
+store: `evalS`/`fwdS`/`revS` return the initial store with entries pushed in front, every one of them
+at the id of a memo-carrying object reachable from the expression they were called on.  These
+statements are unconditional: no well-formedness of sharing, no consistency of the initial store,
+any number instance.
+-/
+import Smooth.Proofs.Heap
+import Smooth.Model.Instances
+
 namespace Smooth
-/-- placeholder while the property file is being written -/
-theorem C10_placeholder : (1 : Nat) = 1 := rfl
+open Expr
+variable {α : Type}
+
+/-- **C10 (frame of `_evaluate`).** -/
+theorem eval_only_adds_memos (N : Num α) (p : Point α) (e : Expr α) (st st' : Store α) (v : α)
+    (h : evalS N p e st = .ok (v, st')) :
+    ∃ added : Store α, st' = added ++ st ∧ ∀ i ∈ added.map Prod.fst, i ∈ memoIds e :=
+  evalS_frame e (fun _ hi => hi) st v st' h
+
+/-- **C10 (frame of `_numeric_partial`).** -/
+theorem fwd_only_adds_memos (N : Num α) (p : Point α) (x : String) (e : Expr α)
+    (st st' : Store α) (d : α) (h : fwdS N p x e st = .ok (d, st')) :
+    ∃ added : Store α, st' = added ++ st ∧ ∀ i ∈ added.map Prod.fst, i ∈ memoIds e :=
+  fwdS_frame x e (fun _ hi => hi) st d st' h
+
+/-- **C10 (frame of `_compute_numeric_partials`).** -/
+theorem rev_only_adds_memos (N : Num α) (p : Point α) (e : Expr α) (m : α) (acc acc' : Acc α)
+    (st st' : Store α) (h : revS N p e m acc st = .ok (acc', st')) :
+    ∃ added : Store α, st' = added ++ st ∧ ∀ i ∈ added.map Prod.fst, i ∈ memoIds e :=
+  revS_frame e (fun _ hi => hi) m acc st acc' st' h
+
+/-- hence the memo of every object that is not reachable from `e` is exactly what it was -/
+theorem eval_foreign_memos_untouched (N : Num α) (p : Point α) (e : Expr α) (st st' : Store α)
+    (v : α) (h : evalS N p e st = .ok (v, st')) {j : Nat} (hj : j ∉ memoIds e) :
+    st'.get? j = st.get? j :=
+  (evalS_frame e (fun _ hi => hi) st v st' h).get?_of_not_mem hj
+
+theorem fwd_foreign_memos_untouched (N : Num α) (p : Point α) (x : String) (e : Expr α)
+    (st st' : Store α) (d : α) (h : fwdS N p x e st = .ok (d, st')) {j : Nat}
+    (hj : j ∉ memoIds e) : st'.get? j = st.get? j :=
+  (fwdS_frame x e (fun _ hi => hi) st d st' h).get?_of_not_mem hj
+
+theorem rev_foreign_memos_untouched (N : Num α) (p : Point α) (e : Expr α) (m : α)
+    (acc acc' : Acc α) (st st' : Store α) (h : revS N p e m acc st = .ok (acc', st')) {j : Nat}
+    (hj : j ∉ memoIds e) : st'.get? j = st.get? j :=
+  (revS_frame e (fun _ hi => hi) m acc st acc' st' h).get?_of_not_mem hj
+
+/-- and no run on `e₁` (at any point, from any store) changes what any expression `e₂` — sharing
+objects with `e₁` or not — evaluates to afterwards, at any point -/
+theorem eval_does_not_disturb_others (N : Num α) (p₁ p₂ : Point α) (e₁ : Expr α) {e₂ : Expr α}
+    (hid : IdsOK e₂) (st st' : Store α) (v : α) (_h : evalS N p₁ e₁ st = .ok (v, st')) :
+    atS N p₂ e₂ st' = atS N p₂ e₂ st := by
+  rw [at_refines N p₂ hid, at_refines N p₂ hid]
+
+/-! ### non-vacuity -/
+
+/-- a run that does add entries: from a store holding only a foreign entry, evaluating the DAG
+`s * s` (`s` = id 1, product = id 2) pushes the memo of `s` once (the second occurrence is a hit) and
+then the memo of the product -/
+example : evalS intNum [("x", 3)] (exDag 1) [(99, 5)] = .ok (16, [(2, 16), (1, 4)] ++ [(99, 5)]) ∧
+    memoIds (exDag (1 : Int)) = [2, 1, 1] := ⟨rfl, rfl⟩
+
+/-- forward and reverse mode on the same DAG return, too; they memoise the shared factor only (the
+product rule evaluates the factors, not the product) -/
+example : fwdS intNum [("x", 3)] "x" (exDag 1) [(99, 5)]
+      = .ok (8, [(1, 4)] ++ [(99, 5)]) ∧
+    revS intNum [("x", 3)] (exDag 1) 1 [] [(99, 5)]
+      = .ok ([("x", 8)], [(1, 4)] ++ [(99, 5)]) := ⟨rfl, rfl⟩
+
 end Smooth
